@@ -104,6 +104,10 @@ fn noise(seed: u64) -> (Vec<Vec<u8>>, Vec<starlark::environment::FrozenModule>) 
     (keep, mods)
 }
 
+thread_local! {
+    static WATCH: std::cell::RefCell<Option<(std::sync::Arc<std::sync::atomic::AtomicU64>, std::time::Instant)>> = const { std::cell::RefCell::new(None) };
+}
+
 fn main() {
     let args: Vec<String> = std::env::args().collect();
     if args.len() < 4 {
@@ -133,6 +137,26 @@ fn main() {
     let main_thread = opts.get("main_thread").map(|s| s == "1").unwrap_or(false);
     // Allocation noise: different addresses, allocator and chunk-cache states before the batch (C14).
     let _noise_keep = opts.get("noise").and_then(|s| s.parse::<u64>().ok()).map(noise);
+    // Watchdog: a case that runs longer than `case_timeout_s` (wall clock) ends the process, so that the driver
+    // re-runs exactly that case alone (there the verdict is taken on CPU time, never on wall clock).
+    let case_started = std::sync::Arc::new(std::sync::atomic::AtomicU64::new(0));
+    if let Some(limit) = opts.get("case_timeout_s").and_then(|s| s.parse::<u64>().ok()) {
+        let cs = case_started.clone();
+        let t0 = std::time::Instant::now();
+        std::thread::spawn(move || {
+            loop {
+                std::thread::sleep(std::time::Duration::from_millis(500));
+                let started = cs.load(std::sync::atomic::Ordering::SeqCst);
+                if started != 0 && t0.elapsed().as_millis() as u64 > started + limit * 1000 {
+                    eprintln!("svh watchdog: case exceeded {limit} s wall clock");
+                    std::process::exit(98);
+                }
+            }
+        });
+        // make `started` relative to t0 (never 0 while a case runs)
+        let cs2 = case_started.clone();
+        WATCH.with(|w| *w.borrow_mut() = Some((cs2, t0)));
+    }
     for line in std::io::BufReader::new(input).lines() {
         let line = line.expect("read");
         if line.trim().is_empty() {
@@ -142,6 +166,11 @@ fn main() {
         let id = case["id"].clone();
         writeln!(out, "{}", json!({"start": id})).unwrap();
         out.flush().unwrap();
+        WATCH.with(|w| {
+            if let Some((cs, t0)) = &*w.borrow() {
+                cs.store(t0.elapsed().as_millis() as u64 + 1, std::sync::atomic::Ordering::SeqCst);
+            }
+        });
         let mode2 = mode.clone();
         let runner = move || match mode2.as_str() {
             "run" => run::run_case(&case),
@@ -166,6 +195,7 @@ fn main() {
         } else {
             guarded(stack_mb, runner)
         };
+        case_started.store(0, std::sync::atomic::Ordering::SeqCst);
         writeln!(out, "{}", json!({"id": id, "ev": events})).unwrap();
         out.flush().unwrap();
     }
